@@ -410,11 +410,17 @@ func mutate(t *rapid.T, a gm.G, tol float64) (gm.G, string) {
 		return b, "one-ordinate-one-ulp"
 	case 3: // swap two members / holes
 		var nodes [][]int
-		collect(b, nil, func(g gm.G) bool { return len(g.Mem) >= 2 || len(g.Rings) >= 3 }, &nodes)
+		collect(b, nil, func(g gm.G) bool { return len(g.Mem) >= 2 || len(g.Rings) >= 2 }, &nodes)
 		if len(nodes) == 0 {
 			return b, "identical"
 		}
 		n := at(&b, nodes[rapid.IntRange(0, len(nodes)-1).Draw(t, "node")])
+		if len(n.Rings) >= 2 && (len(n.Rings) == 2 || rapid.Bool().Draw(t, "shellswap")) {
+			// the shell trades places with a hole: not an order IgnoreOrder ignores
+			j := rapid.IntRange(1, len(n.Rings)-1).Draw(t, "shellswapwith")
+			n.Rings[0], n.Rings[j] = n.Rings[j], n.Rings[0]
+			return b, "shell-and-hole-swapped"
+		}
 		if len(n.Mem) >= 2 {
 			i := rapid.IntRange(0, len(n.Mem)-2).Draw(t, "i")
 			n.Mem[i], n.Mem[i+1] = n.Mem[i+1], n.Mem[i]
